@@ -211,6 +211,10 @@ def _dotted(node):
     return "?"
 
 
+_FILE_CHANGING = {"os.remove", "os.unlink", "os.rename", "os.replace", "os.truncate", "os.rmdir", "os.removedirs", "shutil.rmtree", "shutil.move", "shutil.copy",
+                  "shutil.copyfile", "shutil.copy2", "os.open", "os.write", "os.ftruncate", "os.link", "os.symlink"}
+
+
 def _calls_in(expr, out, handle=None):
     """calls of an expression in evaluation order (arguments before the call itself)"""
     for child in ast.iter_child_nodes(expr):
@@ -226,6 +230,8 @@ def _calls_in(expr, out, handle=None):
             out.append(("read", ""))
         elif name.endswith(".write") or name.endswith(".writelines") or name.endswith(".truncate"):
             out.append(("unknown", "write through " + name))
+        elif name in _FILE_CHANGING or name.split(".")[-1] in ("unlink", "rmtree", "rename", "replace", "write_bytes", "write_text", "touch", "rmdir", "copyfile", "move"):
+            out.append(("unknown", "changes a file: " + name))   # removing / renaming / replacing a file is not in the effect model
         else:
             out.append(("call", name))
 
